@@ -46,6 +46,18 @@ seg_measures (Segmentation.__init__ x origin of the pixel measures x spacing pre
 derivable: [object of the caller changed, spacing recorded]) and pr_area
 (pr.content._add_displayed_area_attributes called directly x order of the sizes of
 the referenced images: [corner, selected image, the caller's list afterwards]).
+Strengthening round 3: pr_voi (grayscale / pseudo-colour presentation states and
+pr.content._add_softcopy_voi_lut_attributes called directly x NUMBER of VOI LUT transformations x
+what each refers to - nothing, whole images, one frame (scalar element), several frames
+(multi-valued element), segments - x several of them referring to the SAME image x overlap:
+[the caller's frame numbers afterwards, those the object holds] or the refusal; model-compared
+except for segment references), obj_copy (objects WITH A HISTORY - plain dataset, converted earlier
+with / without copying, read by imread / segread / srread / annread, straight from the constructor -
+x from_dataset(copy True / default / False), copy.deepcopy, pickle, each applied TWICE: [result is
+the argument, original changed]; model-compared) and the hist dimension of conv (the argument of
+every converter already is an object of the class).  Every snapshot of a dataset now includes what
+the object holds BESIDES its elements (names of all instance attributes, values of those the
+library adds: coordinate system, frame look-up database, dimension index pointers ...).
 """
 import copy as _copy
 import io
@@ -92,6 +104,14 @@ ORACLE_PREMISES = [
     'frame positions are regularly spaced (the generator keeps steps equal or apart by >= 100 %) - hand-transcribed '
     'ownership configuration (measures_cfg), tied by the seg_measures kind',
     'displayed area: sorted() is a stable sort of a copy (insertion sort in the model), list.sort() the same in place',
+    'VOI LUT references: prev_ref_frames as an association list of accumulators keyed by the POSITION of the image '
+    'in referenced_images (the code keys by (SOP class, SOP instance) UIDs; the generator passes distinct images), '
+    'a defaultdict key appears with the first frame, one frame number = scalar element = a list of the function\'s '
+    'own, two or more = the caller\'s MultiValue; IS values compare as integers; ReferencedSegmentNumber / '
+    'prev_ref_segs are not modelled (oracle only)',
+    'copies of objects: deepcopy / pickle build the new object from a deep copy of what __getstate__ returns and '
+    'write to nothing else; dict.copy() is a new dictionary (OCopy), del / item assignment write into the dictionary '
+    'they are applied to (OInplace) - hand-transcribed from image.py _Image.__getstate__, tied by the obj_copy kind',
 ]
 MODELLED = ('all from_dataset/from_sequence/extract_from_dataset/_from_dataset_* classmethods under src/highdicom '
             '(effect terms, regenerated each run); valuerep._check_code_string/_check_short_string/_check_long_string/'
@@ -105,7 +125,9 @@ MODELLED = ('all from_dataset/from_sequence/extract_from_dataset/_from_dataset_*
             'segment loop as number of expanded entries and its error kinds, descriptor incl. the 2^16 rule, stored '
             'bytes); the pixel-measures block of seg.Segmentation.__init__ (origin of the sequence, copy before the '
             'derived SpacingBetweenSlices is recorded); pr.content._add_displayed_area_attributes (selection of the '
-            'smallest level, order of the caller\'s list)')
+            'smallest level, order of the caller\'s list); pr.content._add_softcopy_voi_lut_attributes (guards, '
+            'per-image accumulators of referenced frames with their ownership, overlap check, the sequence stored); '
+            'image._Image.__getstate__ as operations on the instance dictionary of the original')
 STRATA = ['guard', 'valid', 'uid_uuid', 'uid_hd', 'uid_valid', 'uid_unique', 'conv', 'ctor',
           'ctor_layout', 'ctor_multi', 'ctor_opt', 'lut', 'pyr_ids', 'pm_native', 'sop_init', 'seg_plane',
           'ctor_src', 'seg_measures', 'pr_area', 'pr_voi', 'obj_copy']
@@ -115,7 +137,10 @@ NOT_EXECUTED = ['SpecimenDescription.from_dataset at run time (substitute attrib
                 '(TypeError / ValueError, counted as rejected, inputs checked unchanged); only float pm arrays and '
                 'LUT tables are accepted in that byte order',
                 'LegacyConvertedEnhanced* images as SOURCE of a segmentation / parametric map (the substitute attribute '
-                'table gives them no FrameOfReferenceUID); AdvancedBlendingPresentationState']
+                'table gives them no FrameOfReferenceUID); AdvancedBlendingPresentationState',
+                'objects read with lazy_frame_retrieval=True as argument of a conversion / copy (observation, not counted: '
+                '_build_luts resets _file_reader, so from_dataset(copy=False) of a lazily read image drops its frame '
+                'access and the copy made with copy=True has neither PixelData nor a reader)']
 RULE = ('guard/valid: strings over a boundary alphabet (upper, lower, digit, space, underscore, backslash, newline, '
         'non-ASCII) with lengths around every limit (0,1,15,16,17,63,64,65,1023..1025,10239..10241); uid: 128-bit '
         'draws incl. 0, 9, 10, 2^k, 2^128-1; conv: every reachable converter x copy in {True,False} on randomly '
@@ -136,7 +161,14 @@ RULE = ('guard/valid: strings over a boundary alphabet (upper, lower, digit, spa
         'regular, irregular); pr_area: tiled or not x 0..5 images x order of sizes (ascending, descending, mixed, '
         'ties, equal products) x list / tuple; lut also: segmented tables with discrete and linear segments expanding '
         'to 1,2,3,255,256,257,1000 (8 bit) and 1,2,256,4096,65534,65535,65536 (16 bit) entries, alone / in a '
-        'transformation / in a presentation state, malformed segment streams, plain tables of 65535 and 65536 entries. '
+        'transformation / in a presentation state, malformed segment streams, plain tables of 65535 and 65536 entries; '
+        'pr_voi: entry (grayscale, pseudo-colour, direct) x images (multi-frame CT, tiled slide, two multi-frame images, '
+        'single-frame series, segmentation) x 0-4 transformations x reference form (none, whole image, one frame, '
+        'several frames, per-item frame numbers, segments) x same image or not x order of forms x overlap / unknown '
+        'image x list / tuple x window / VOI LUT; obj_copy: class (Image ct / multi-frame / tiled, Segmentation x3, '
+        'SR document, annotations, coded concept, content item) x history (plain, converted with / without copying, '
+        'read, constructed) x operation (copy True / default / False, deepcopy, pickle), twice; conv also with an '
+        'argument that already is an object of the class. '
         'non-trivial = accepted value / changed class / written file')
 
 CTOR_KINDS = ('ctor', 'ctor_layout', 'ctor_multi', 'ctor_opt', 'ctor_src')
@@ -2146,6 +2178,10 @@ def run_pr_voi(c):
         if _call_mistake(ex):
             raise
         return _unchanged(before, owned, what + f' (refused: {type(ex).__name__})') or Err(type(ex).__name__)
+    except Exception as ex:         # lists and tuples of valid images / transformations: nothing else may escape
+        return _unchanged(before, owned, what + f' (raised {type(ex).__name__})') or \
+            _viol(f'{what} ({type(refs).__name__} of images, {type(vois).__name__} of transformations) raises '
+                  f'{type(ex).__name__}: {ex}')
     v = _unchanged(before, owned, what)
     if v:
         return v
